@@ -145,12 +145,13 @@ impl Searcher {
         let max_depth = max_depth.unwrap_or(usize::MAX);
         let mut rng = rng;
 
-        #[cfg(weechess_verif)]
-        let previous_artifact = previous_artifact.or_else(|| verif::default_artifact(&mut rng));
-
         let (hasher, transpositions, mut state_history) = previous_artifact
             .map(|a| (a.hasher, a.transpositions, a.state_history))
             .unwrap_or_else(|| {
+                // Verification builds shadow the size of the default table (and nothing else)
+                #[cfg(weechess_verif)]
+                const DEFAULT_TRANSPOSITION_TABLE_SIZE_MB: usize = verif::DEFAULT_TABLE_SIZE_MB;
+
                 let hasher = ZobristHasher::with(&mut rng);
                 let state_history = StateHistory::new();
                 let transpositions = {
